@@ -163,7 +163,9 @@ class Client:
         else:
             self._build_hand()
         self.actions = list(self.mspec['actions'])
-        self.env.set_seed(spec.get('env_seed', 0))
+        if not spec.get('unseeded'):
+            self.env.set_seed(spec.get('env_seed', 0))
+        # (an environment that is never given a seed draws from the library-level generator, as documented)
         for w in spec.get('pool_worlds', []):
             self.pool.append(mk_state(w))
             self.valid.append(False)
